@@ -1,15 +1,17 @@
 """Forced schedules on the real XmlContext without touching /repo.
 
-The context's shared containers are replaced by instrumented dict /
-defaultdict subclasses and `sys_modules` by a property on a harness-side
-subclass; every access parks the calling thread until the scheduler releases
-it.  One release = one shared operation = one atomic step of the Lean model
+`cache` is replaced by an instrumented dict; `xsi_cache` and `sys_modules`
+become properties over the original slots on a harness-side subclass: assigning
+either parks the calling thread, reading `sys_modules` parks, reading
+`xsi_cache` returns a parking *view* of the dict object that is published at
+that moment (so `in`, `[]`, `clear()` park after the reference has been read,
+as in the real byte code); every binding model the index rebuild is about to
+add is a thread-local park point.  One release = one step of the Lean model
 (Ctx/Conc.lean).
 """
 from __future__ import annotations
 
 import threading
-from collections import defaultdict
 
 from xsdata.formats.dataclass.context import XmlContext
 
@@ -100,49 +102,85 @@ class HookDict(dict):
         self.sched.hook("cache.setitem")
         dict.__setitem__(self, k, v)
 
+    def clear(self):
+        self.sched.hook("cache.clear")
+        dict.clear(self)
 
-class HookDefaultDict(defaultdict):
-    """XmlContext.xsi_cache"""
 
-    sched: Scheduler
+class DictView:
+    """What reading `ctx.xsi_cache` yields: a parking view of the dict object
+    that is currently published (the object itself is left untouched, so code
+    that keeps filling a dict after publishing it is observed faithfully)."""
+
+    __slots__ = ("real", "sched")
+
+    def __init__(self, real, sched):
+        self.real = real
+        self.sched = sched
 
     def __contains__(self, k):
         self.sched.hook("xsi.contains")
-        return defaultdict.__contains__(self, k)
+        return k in self.real
 
     def __getitem__(self, k):
         self.sched.hook("xsi.getitem")
-        return defaultdict.__getitem__(self, k)
+        return self.real[k]
 
     def clear(self):
         self.sched.hook("xsi.clear")
-        defaultdict.clear(self)
+        self.real.clear()
+
+    def __iter__(self):
+        return iter(self.real)
+
+    def __len__(self):
+        return len(self.real)
+
+    def __getattr__(self, name):  # values(), items(), keys(), get() ...
+        return getattr(self.real, name)
 
 
 def hooked_context(sched: Scheduler, models_package=None, warm=False) -> XmlContext:
-    """A real XmlContext whose shared state is observable by the scheduler."""
-    slot = XmlContext.__dict__["sys_modules"]  # the slot descriptor
+    """A real XmlContext whose shared state is observable by the scheduler:
+    `cache` is an instrumented dict, `xsi_cache` and `sys_modules` are properties
+    over the original slots (assignment and, for sys_modules, reads park; reading
+    xsi_cache returns a parking view), and every binding model the index rebuild
+    is about to add is a (thread-local) park point."""
+    mods_slot = XmlContext.__dict__["sys_modules"]
+    xsi_slot = XmlContext.__dict__["xsi_cache"]
 
     class HookedContext(XmlContext):
         __slots__ = ()
 
-        def _get(self):
+        def _get_mods(self):
             sched.hook("mods.read")
-            return slot.__get__(self, XmlContext)
+            return mods_slot.__get__(self, XmlContext)
 
-        def _set(self, v):
+        def _set_mods(self, v):
             sched.hook("mods.write")
-            slot.__set__(self, v)
+            mods_slot.__set__(self, v)
 
-        sys_modules = property(_get, _set)
+        sys_modules = property(_get_mods, _set_mods)
+
+        def _get_xsi(self):
+            return DictView(xsi_slot.__get__(self, XmlContext), sched)
+
+        def _set_xsi(self, v):
+            sched.hook("xsi.publish")
+            xsi_slot.__set__(self, v.real if isinstance(v, DictView) else v)
+
+        xsi_cache = property(_get_xsi, _set_xsi)
+
+        def is_binding_model(self, clazz):
+            r = super().is_binding_model(clazz)
+            if r:
+                sched.hook("local.add")
+            return r
 
     ctx = HookedContext(models_package=models_package)
     if warm:
         ctx.build_xsi_cache()
     cache = HookDict(ctx.cache)
     cache.sched = sched
-    xsi = HookDefaultDict(list, ctx.xsi_cache)
-    xsi.sched = sched
     ctx.cache = cache
-    ctx.xsi_cache = xsi
     return ctx
